@@ -184,6 +184,19 @@ def rndTake (rnd : Bytes) (pos n : Nat) : Bytes :=
   if rnd.isEmpty then (List.range n).map (fun i => UInt8.ofNat (48 + i))
   else (List.range n).map (fun i => rnd.getD ((pos + i) % rnd.length) 0)
 
+/-- outcome of a parser: a value, an error reply (code, text), or `oob`: the C would have read outside
+    the buffer it is parsing.  The parsers below test a bound only where the C tests one; every actual
+    access goes through `byteAt` / `takeN`, which yield `oob` when it is out of range. -/
+inductive PR (α : Type) where
+  | ok (a : α)
+  | err (e : Int × String)
+  | oob
+deriving Repr
+
+def byteAt (b : Bytes) (i : Nat) : Option UInt8 := b[i]?
+/-- `memcpy (dst, p, n)` from the cursor: the bytes and the advanced cursor, or none if `n` exceeds what is left -/
+def takeN (b : Bytes) (n : Nat) : Option (Bytes × Bytes) := if n ≤ b.length then some (b.take n, b.drop n) else none
+
 /-! ### zip.c on top of the back ends -/
 def zipHeader (n : Nat) : Bytes := be32 ZIP_MAGIC.toNat ++ be32 n
 
@@ -196,6 +209,8 @@ def zipLength (src : Bytes) : Int :=
   if src.length < 8 then -1
   else if rd32 (src.take 4) ≠ ZIP_MAGIC.toNat then -1
   else wrapS32 (rd32 ((src.drop 4).take 4))
+/-- the header reads of `zip_decompress_length` stay inside the block whenever it gets past its length test -/
+def zipHeaderReadsInBounds (src : Bytes) : Bool := src.length < 8 || (takeN src 8).isSome
 
 /-! ### encode: `enc_process_msg` -/
 
@@ -277,6 +292,16 @@ def encProcess (P : Prims) (cf : Conf) (env : Env) (m0 : Msg) : Msg × Int :=
   let cred := armor outer macv inner
   ({ m with data := cred, dataLen := cred.length }, 0)
 
+/-- Build a credential around ARBITRARY bytes `plain` as the (possibly "compressed") inner layer, with a
+    valid MAC and encryption under the daemon's keys: used by the checks to present validly-MAC'd but
+    malformed interiors (truncated fields, corrupt zip streams, lying lengths) to the decoder. -/
+def forge (P : Prims) (cf : Conf) (c mc z : Nat) (realm iv plain : Bytes) : Bytes :=
+  let outer := [UInt8.ofNat MUNGE_CRED_VERSION.toNat, UInt8.ofNat c, UInt8.ofNat mc, UInt8.ofNat z,
+                UInt8.ofNat realm.length] ++ realm ++ iv
+  let macv := P.mac mc cf.macKey (outer ++ plain)
+  let inner := if c = 0 then plain else P.encrypt c (P.mac mc cf.dekKey macv) iv plain
+  armor outer macv inner
+
 /-! ### decode: `dec_process_msg` -/
 
 /-- the credential being decoded (`struct munge_cred` scratch) -/
@@ -286,7 +311,6 @@ structure Scratch where
   inner : Bytes := []
   iv : Bytes := []
   macLen : Nat := 0
-  oob : Bool := false        -- a read outside the unarmored buffer
 deriving Repr
 
 def isSpaceC (c : UInt8) : Bool := c = 9 || c = 10 || c = 11 || c = 12 || c = 13 || c = 32
@@ -310,50 +334,68 @@ def unarmor (m : Msg) : Except (Int × String) Bytes :=
     let r := Base64.decodeBlock (d.take k)
     if r.1 < 0 then .error (EMUNGE_BAD_CRED, "Failed to base64-decode credential") else .ok r.2
 
-/-- `dec_unpack_outer` over the unarmored bytes -/
-def unpackOuter (P : Prims) (m : Msg) (buf : Bytes) : Except (Int × String) (Msg × Scratch) :=
+/-- `dec_unpack_outer` over the unarmored bytes (`len` = bytes remaining, as in the C) -/
+def unpackOuter (P : Prims) (m : Msg) (buf : Bytes) : PR (Msg × Scratch) :=
   -- version
-  if 1 > buf.length then .error (EMUNGE_BAD_CRED, "Truncated credential version") else
-  let ver := (buf.getD 0 0).toNat
-  if (ver : Int) ≠ MUNGE_CRED_VERSION then .error (EMUNGE_BAD_VERSION, s!"Invalid credential version {ver}") else
+  if 1 > buf.length then .err (EMUNGE_BAD_CRED, "Truncated credential version") else
+  match byteAt buf 0 with
+  | none => .oob
+  | some ver =>
+  if (ver.toNat : Int) ≠ MUNGE_CRED_VERSION then .err (EMUNGE_BAD_VERSION, s!"Invalid credential version {ver.toNat}") else
   -- cipher
-  if 1 > buf.length - 1 then .error (EMUNGE_BAD_CRED, "Truncated cipher type") else
-  let c := (buf.getD 1 0).toNat
+  if 1 > buf.length - 1 then .err (EMUNGE_BAD_CRED, "Truncated cipher type") else
+  match byteAt buf 1 with
+  | none => .oob
+  | some cb =>
+  let c := cb.toNat
   let m := { m with cipher := c }
-  if c ≠ 0 ∧ ¬ P.cipherValid c then .error (EMUNGE_BAD_CIPHER, s!"Invalid cipher type {c}") else
+  if c ≠ 0 ∧ ¬ P.cipherValid c then .err (EMUNGE_BAD_CIPHER, s!"Invalid cipher type {c}") else
   let ivLen : Int := if c = 0 then 0 else P.ivLen c
-  if ivLen < 0 then .error (EMUNGE_SNAFU, s!"Failed to determine IV length for cipher type {c}") else
+  if ivLen < 0 then .err (EMUNGE_SNAFU, s!"Failed to determine IV length for cipher type {c}") else
   -- mac
-  if 1 > buf.length - 2 then .error (EMUNGE_BAD_CRED, "Truncated MAC type") else
-  let mc := (buf.getD 2 0).toNat
+  if 1 > buf.length - 2 then .err (EMUNGE_BAD_CRED, "Truncated MAC type") else
+  match byteAt buf 2 with
+  | none => .oob
+  | some mb =>
+  let mc := mb.toNat
   let m := { m with mac := mc }
-  if ¬ P.macValid mc then .error (EMUNGE_BAD_MAC, s!"Invalid MAC type {mc}") else
+  if ¬ P.macValid mc then .err (EMUNGE_BAD_MAC, s!"Invalid MAC type {mc}") else
   let macLen := P.macLen mc
-  if macLen ≤ 0 then .error (EMUNGE_SNAFU, s!"Failed to determine digest length for MAC type {mc}") else
-  if P.macLen mc < P.keyLen c then .error (EMUNGE_BAD_MAC, s!"Invalid MAC type {mc} with cipher type {c}") else
+  if macLen ≤ 0 then .err (EMUNGE_SNAFU, s!"Failed to determine digest length for MAC type {mc}") else
+  if P.macLen mc < P.keyLen c then .err (EMUNGE_BAD_MAC, s!"Invalid MAC type {mc} with cipher type {c}") else
   -- zip
-  if 1 > buf.length - 3 then .error (EMUNGE_BAD_CRED, "Truncated compression type") else
-  let z := (buf.getD 3 0).toNat
+  if 1 > buf.length - 3 then .err (EMUNGE_BAD_CRED, "Truncated compression type") else
+  match byteAt buf 3 with
+  | none => .oob
+  | some zb =>
+  let z := zb.toNat
   let m := { m with zip := z }
-  if z ≠ 0 ∧ ¬ P.zipValid z then .error (EMUNGE_BAD_ZIP, s!"Invalid compression type {z}") else
+  if z ≠ 0 ∧ ¬ P.zipValid z then .err (EMUNGE_BAD_ZIP, s!"Invalid compression type {z}") else
   -- realm
-  if 1 > buf.length - 4 then .error (EMUNGE_BAD_CRED, "Truncated security realm length") else
-  let rl := (buf.getD 4 0).toNat
+  if 1 > buf.length - 4 then .err (EMUNGE_BAD_CRED, "Truncated security realm length") else
+  match byteAt buf 4 with
+  | none => .oob
+  | some rb =>
+  let rl := rb.toNat
   let m := { m with realmLen := rl }
   let rest := buf.drop 5
-  if rl > 0 ∧ rl > rest.length then .error (EMUNGE_BAD_CRED, "Truncated security realm string") else
-  -- realm string is copied and NUL-terminated; realm_len (uint8) becomes rl+1
-  let m := if rl > 0 then { m with realm := rest.take rl ++ [0], realmLen := (rl + 1) % 256 } else m
-  let rest := rest.drop rl
+  if rl > 0 ∧ rl > rest.length then .err (EMUNGE_BAD_CRED, "Truncated security realm string") else
+  match takeN rest rl with
+  | none => .oob
+  | some (realm, rest) =>
+  -- the realm string is copied and NUL-terminated; realm_len (uint8) becomes rl+1
+  let m := if rl > 0 then { m with realm := realm ++ [0], realmLen := (rl + 1) % 256 } else m
   -- iv
-  if ivLen > 0 ∧ ivLen > rest.length then .error (EMUNGE_BAD_CRED, "Truncated cipher IV") else
-  let iv := rest.take ivLen.toNat
-  let rest := rest.drop ivLen.toNat
+  if ivLen > 0 ∧ ivLen > rest.length then .err (EMUNGE_BAD_CRED, "Truncated cipher IV") else
+  match takeN rest ivLen.toNat with
+  | none => .oob
+  | some (iv, rest) =>
   let outerLen := buf.length - rest.length
-  -- MAC (bounded by the remaining length)
-  if macLen > rest.length then .error (EMUNGE_BAD_CRED, "Truncated MAC") else
-  let macv := rest.take macLen.toNat
-  let inner := rest.drop macLen.toNat
+  -- MAC
+  if macLen > rest.length then .err (EMUNGE_BAD_CRED, "Truncated MAC") else
+  match takeN rest macLen.toNat with
+  | none => .oob
+  | some (macv, inner) =>
   .ok (m, { outer := buf.take outerLen, mac := macv, inner := inner, iv := iv, macLen := macLen.toNat })
 
 /-- `dec_decrypt`: returns plaintext (as far as produced) and the message with the deferred error -/
@@ -381,44 +423,67 @@ def decDecompress (P : Prims) (m : Msg) (s : Scratch) : Except (Int × Option St
   | none => .error (EMUNGE_CRED_INVALID, none)
   | some d => .ok { s with inner := d }
 
+/-- read a big-endian `uint32_t` at the cursor after the C's `n > len` test -/
+def take32 (rest : Bytes) (what : String) : PR (Nat × Bytes) :=
+  if 4 > rest.length then .err (EMUNGE_BAD_CRED, what) else
+  match takeN rest 4 with
+  | none => .oob
+  | some (v, rest) => .ok (rd32 v, rest)
+
 /-- `dec_unpack_inner` -/
-def unpackInner (m : Msg) (buf : Bytes) : Except (Int × String) Msg :=
+def unpackInner (m : Msg) (buf : Bytes) : PR Msg :=
   let saltLen := MUNGE_CRED_SALT_LEN.toNat
-  if saltLen > buf.length then .error (EMUNGE_BAD_CRED, "Truncated salt") else
-  let rest := buf.drop saltLen
-  if 1 > rest.length then .error (EMUNGE_BAD_CRED, "Truncated origin IP addr length") else
-  let al := (rest.getD 0 0).toNat
+  if saltLen > buf.length then .err (EMUNGE_BAD_CRED, "Truncated salt") else
+  match takeN buf saltLen with
+  | none => .oob
+  | some (_, rest) =>
+  if 1 > rest.length then .err (EMUNGE_BAD_CRED, "Truncated origin IP addr length") else
+  match byteAt rest 0 with
+  | none => .oob
+  | some ab =>
+  let al := ab.toNat
   let m := { m with addrLen := al }
   let rest := rest.drop 1
-  if al > rest.length then .error (EMUNGE_BAD_CRED, "Truncated origin IP addr") else
-  if al ≠ 4 ∧ al ≠ 0 then .error (EMUNGE_BAD_CRED, "Invalid origin IP addr length") else
-  let m := { m with addr := if al = 4 then rest.take 4 else [0, 0, 0, 0] }
-  let rest := rest.drop al
-  if 4 > rest.length then .error (EMUNGE_BAD_CRED, "Truncated encode time") else
-  let m := { m with time0 := rd32 (rest.take 4) }
-  let rest := rest.drop 4
-  if 4 > rest.length then .error (EMUNGE_BAD_CRED, "Truncated time-to-live") else
-  let m := { m with ttl := rd32 (rest.take 4) }
-  let rest := rest.drop 4
-  if 4 > rest.length then .error (EMUNGE_BAD_CRED, "Truncated UID") else
-  let m := { m with credUid := rd32 (rest.take 4) }
-  let rest := rest.drop 4
-  if 4 > rest.length then .error (EMUNGE_BAD_CRED, "Truncated GID") else
-  let m := { m with credGid := rd32 (rest.take 4) }
-  let rest := rest.drop 4
-  if 4 > rest.length then .error (EMUNGE_BAD_CRED, "Truncated UID restriction") else
-  let m := { m with authUid := rd32 (rest.take 4) }
-  let rest := rest.drop 4
-  if 4 > rest.length then .error (EMUNGE_BAD_CRED, "Truncated GID restriction") else
-  let m := { m with authGid := rd32 (rest.take 4) }
-  let rest := rest.drop 4
-  if 4 > rest.length then .error (EMUNGE_BAD_CRED, "Truncated data length") else
-  let dl := rd32 (rest.take 4)
+  if al > rest.length then .err (EMUNGE_BAD_CRED, "Truncated origin IP addr") else
+  if al ≠ 4 ∧ al ≠ 0 then .err (EMUNGE_BAD_CRED, "Invalid origin IP addr length") else
+  match takeN rest al with
+  | none => .oob
+  | some (a, rest) =>
+  let m := { m with addr := if al = 4 then a else [0, 0, 0, 0] }
+  match take32 rest "Truncated encode time" with
+  | .oob => .oob | .err e => .err e
+  | .ok (v, rest) =>
+  let m := { m with time0 := v }
+  match take32 rest "Truncated time-to-live" with
+  | .oob => .oob | .err e => .err e
+  | .ok (v, rest) =>
+  let m := { m with ttl := v }
+  match take32 rest "Truncated UID" with
+  | .oob => .oob | .err e => .err e
+  | .ok (v, rest) =>
+  let m := { m with credUid := v }
+  match take32 rest "Truncated GID" with
+  | .oob => .oob | .err e => .err e
+  | .ok (v, rest) =>
+  let m := { m with credGid := v }
+  match take32 rest "Truncated UID restriction" with
+  | .oob => .oob | .err e => .err e
+  | .ok (v, rest) =>
+  let m := { m with authUid := v }
+  match take32 rest "Truncated GID restriction" with
+  | .oob => .oob | .err e => .err e
+  | .ok (v, rest) =>
+  let m := { m with authGid := v }
+  match take32 rest "Truncated data length" with
+  | .oob => .oob | .err e => .err e
+  | .ok (dl, rest) =>
   let m := { m with dataLen := dl }
-  let rest := rest.drop 4
-  if dl > 0 ∧ dl > rest.length then .error (EMUNGE_BAD_CRED, "Truncated data") else
-  -- trailing bytes after the payload are not rejected (`assert (len == 0)` is compiled out)
-  .ok { m with data := rest.take dl }
+  if dl > 0 ∧ dl > rest.length then .err (EMUNGE_BAD_CRED, "Truncated data") else
+  -- the payload is not copied: `m->data` points into the buffer; the reply later reads `dl` bytes from it.
+  -- Trailing bytes after the payload are not rejected (`assert (len == 0)` is compiled out).
+  match takeN rest dl with
+  | none => .oob
+  | some (d, _) => .ok { m with data := d }
 
 /-- the replay cache as the daemon keys it: first 16 MAC bytes and the expiry second -/
 abbrev ReplayKey := Bytes × Nat
@@ -433,6 +498,7 @@ structure DecOut where
   inserted : Bool
   key : Option ReplayKey
   replay : ReplaySet
+  oob : Bool := false        -- the C would have read outside the credential buffer
 
 def decProcess (P : Prims) (cf : Conf) (env : Env) (rs : ReplaySet) (m0 : Msg) : DecOut :=
   let fail (m : Msg) : DecOut := { msg := reset m, rc := -1, inserted := false, key := none, replay := rs }
@@ -457,8 +523,9 @@ def decProcess (P : Prims) (cf : Conf) (env : Env) (rs : ReplaySet) (m0 : Msg) :
   | .ok raw =>
   let m := { m with data := [], dataLen := 0 }
   match unpackOuter P m raw with
-  | .error e =>
-      -- fields unpacked before the failing check stay in the message until the reset
+  | .oob => { (fail m) with oob := true }
+  | .err e =>
+      -- fields unpacked before the failing check are wiped by the reset
       err m e
   | .ok (m, s) =>
   let (m, s) := decDecrypt P cf m s
@@ -469,7 +536,8 @@ def decProcess (P : Prims) (cf : Conf) (env : Env) (rs : ReplaySet) (m0 : Msg) :
   | .error e => fail (setErr m e.1 e.2)
   | .ok s =>
   match unpackInner m s.inner with
-  | .error e => err m e
+  | .oob => { (fail m) with oob := true }
+  | .err e => err m e
   | .ok m =>
   -- dec_validate_auth
   let a := dec_validate_auth m.authUid m.authGid m.clientUid m.clientGid (b2int cf.gotRootAuth)
